@@ -30,6 +30,8 @@ OPS = {'dot', 'cross', 'perp_dot', 'length_squared', 'distance_squared', 'elemen
        'project_onto', 'reject_from', 'project_onto_normalized', 'reject_from_normalized', 'reflect', 'refract', 'length', 'length_recip',
        'distance', 'normalize', 'try_normalize', 'normalize_or', 'normalize_or_zero', 'normalize_and_length', 'angle_between', 'angle_to',
        'from_angle', 'to_angle', 'rotate', 'perp'}
+DIVISION_FREE = {'dot', 'cross', 'perp_dot', 'length', 'length_squared', 'distance', 'distance_squared', 'element_sum', 'element_product', 'lerp', 'midpoint', 'reflect',
+                 'rotate', 'perp', 'from_angle', 'project_onto_normalized', 'reject_from_normalized'}
 POLY_OPS = {'dot', 'cross', 'perp_dot', 'length_squared', 'distance_squared', 'element_sum', 'element_product', 'lerp', 'reflect', 'project_onto_normalized', 'reject_from_normalized'}
 
 
@@ -305,6 +307,11 @@ def run(ctx):
                 bad = vec_eq(lanes, [S.neg(a[1]), a[0]], 'perp')
             else:
                 continue
+            if not bad and mname in DIVISION_FREE:
+                from C04 import has_division
+                ts_ = [res] if isinstance(res, tm.T) else (lanes or [])
+                if any(has_division(x) for x in ts_):
+                    bad = '%s divides although its mathematical definition does not: the quotient is undefined (NaN) where the divisor vanishes, e.g. at the zero vector' % mname
             if not bad and mname in POLY_OPS:
                 ts = [res] if isinstance(res, tm.T) else lanes
                 ds = [nf.rounding_depth(x) for x in ts]
